@@ -71,6 +71,11 @@ def run(case, ctx):
                 ctx.violation("schedule", "C11:score_schedule",
                               f"{where}: detector has computed {len(cs) - 1} change scores, the documented schedule (every {m.step} samples once both windows are full) gives {len(m.scores) - 1}; cfg={cfg}")
                 raise EndRun()
+            if len(cs) and len(m.scores) > 1 and (np.isnan(float(cs[-1])) != np.isnan(float(m.scores[-1]))) \
+                    and (abs(float(cs[-1])) < 1e-6 or abs(m.scores[-1]) < 1e-6):
+                # Jensen-Shannon distance of (numerically) identical densities: sqrt of +-1e-17, i.e. NaN or ~1e-9, decided by
+                # rounding noise; the Page-Hinkley state then legitimately differs - not judged, run is cut here
+                ctx.near_tie()
             if len(cs) and len(m.scores) > 1 and not close(cs[-1], m.scores[-1], 1e-8):
                 ctx.violation("score", "C11:change_score",
                               f"{where}: change score {float(cs[-1])!r}, per-component recomputation gives {m.scores[-1]!r} (components {m.last_component_scores}); cfg={cfg}")
